@@ -299,7 +299,7 @@ func Execute(w *World, tape *simrt.Tape, gold []*Golden, onFatal func(int, strin
 	cfg := simrt.Config{
 		Tape: tape, Policy: w.Cfg.Policy, SwitchPct: w.Cfg.SwitchPct, PCTDepth: w.Cfg.PCTDepth,
 		PoolFreshPct: w.Cfg.PoolFreshPct, PoolAnyPct: w.Cfg.PoolAnyPct, PoolDropPct: w.Cfg.PoolDropPct,
-		FPYieldPct: w.Cfg.FPYieldPct, ClockVaryPct: w.Cfg.ClockVaryPct, CPUVary: w.Cfg.CPUVary, RandVary: w.Cfg.RandVary, KeepPools: w.Cfg.KeepPools, OnFatal: onFatal,
+		StepCap: stepCapFor(w), FPYieldPct: w.Cfg.FPYieldPct, ClockVaryPct: w.Cfg.ClockVaryPct, CPUVary: w.Cfg.CPUVary, RandVary: w.Cfg.RandVary, KeepPools: w.Cfg.KeepPools, OnFatal: onFatal,
 	}
 	simrt.Begin(cfg)
 
@@ -403,6 +403,17 @@ func (x *executor) checkLin(res *RunResult) {
 			res.LinUnknown++
 		}
 	}
+}
+
+// stepCapFor: the step cap turns "the tasks keep running but nothing ends" into a
+// verdict. With one task there is no scheduling that could cause that (a task
+// waiting for itself is a deadlock verdict; a loop without yields is the watchdog's),
+// so the cap only guards the tape there and is set far above any input's need.
+func stepCapFor(w *World) int {
+	if len(w.Tasks) <= 1 {
+		return 1 << 30
+	}
+	return 2000000
 }
 
 func usesAllOf(p *Project) bool {
